@@ -296,6 +296,9 @@ class AMF:
                 item={'PDUSessionID':psi,'PDUSessionNASPDU':OS(s.protect(ue,dl,2)),'SNSSAI':sn,'PDUSessionResourceSetupRequestTransfer':OS(trb)}
                 ies=[ie_named(t,10,0,ue.amf),ie_named(t,85,0,ue.ran),ie_named(t,74,0,{'List':[item]})]
                 ue.state='setup'
+                if s.cfg.get('unsolicited_before_setup')==s.n_sessions:
+                    # an unsolicited downlink message (another CONFIGURATION UPDATE COMMAND) overtakes the setup request
+                    return [s.dl_nas(ue,s.protect(ue,bytes([0x7e,0,0x54]),2)), mk_pdu(1,29,0,None,ies)]
                 return [mk_pdu(1,29,0,None,ies)]
             if sm[3]==0xd1:
                 need(ue.state in('session','service'),'release without session'); need(psi==ue.psi,'session id')
